@@ -207,6 +207,15 @@ def cmd (name : String) : P String := do
         s!"{b2n it.neg} {it.deltas.length} " ++ " ".intercalate (it.deltas.map (fun d => s!"{d.1} {d.2}")) ++
         s!" {it.ops.length} " ++ " ".intercalate (it.ops.map (fun o => s!"{o.1} {b2n o.2}"))
       return s!"{items.length} " ++ " ".intercalate (items.map showItem)
+  -- spin-free variant: per entry `neg twos nd (x y)*nd nops (label dag slot)*nops`
+  | "wicknfsf" => do
+      let n ← nat
+      let pat ← many n (do let l ← nat; let d ← nat; return (l, d != 0))
+      let items := wickNormalFormSF pat
+      let showItem := fun (it : WItemSF) =>
+        s!"{b2n it.neg} {it.twos} {it.deltas.length} " ++ " ".intercalate (it.deltas.map (fun d => s!"{d.1} {d.2}")) ++
+        s!" {it.ops.length} " ++ " ".intercalate (it.ops.map (fun o => s!"{o.1} {b2n o.2.1} {o.2.2}"))
+      return s!"{items.length} " ++ " ".intercalate (items.map showItem)
   -- Model: reverse_bubble_list on a list of keys: `<n> keys` -> `<swaps> <n> sorted keys`
   | "bubble" => do
       let l ← natList
